@@ -41,6 +41,36 @@ Record jworld := mkJWorld { jx_cfg : jcfg; jx_clients : list (id * jclient) }.
 Fixpoint jclient_of (l : list (id * jclient)) (i : id) : jclient :=
   match l with [] => no_jclient | (k, v) :: r => if ideq k i then v else jclient_of r i end.
 
+(* ---- the "aud" claim ----
+   The values an audience member can take, as far as this deployment tells them apart: the issuer
+   itself (ctx.Host) and the near-misses a confused or hostile client could name instead - the other
+   endpoints of the same server, the very URL being requested, the mTLS aliases, the issuer written
+   differently - and values that have nothing to do with the server.  validateClaims and
+   validateCIBAJARClaims expect AnyAudience = [ctx.Host]: go-jose compares STRINGS, so only the
+   issuer itself counts; the claim is a list (a single string is a one-element list, an absent
+   claim the empty list) and one matching member suffices. *)
+Inductive audience :=
+  | AudIssuer          (* the issuer identifier of this server, byte for byte *)
+  | AudIssuerSlash     (* the issuer with a trailing slash *)
+  | AudIssuerCase      (* the issuer in another letter case *)
+  | AudToken           (* the token endpoint URL (what a private_key_jwt client assertion carries) *)
+  | AudAuthorize       (* the authorization endpoint URL *)
+  | AudPar             (* the pushed authorization endpoint URL *)
+  | AudBc              (* the backchannel authentication endpoint URL *)
+  | AudRequestURL      (* the URL of the very request that delivers the object *)
+  | AudMtlsIssuer      (* the mTLS host *)
+  | AudMtlsToken       (* the token endpoint under the mTLS host *)
+  | AudMtlsRequestURL  (* the requested URL under the mTLS host *)
+  | AudClient          (* the client's own identifier *)
+  | AudForeign.        (* any other value *)
+Definition aud_is_issuer (a : audience) : bool := match a with AudIssuer => true | _ => false end.
+Definition auds := list audience.
+(* Audience.Contains(ctx.Host) *)
+Definition aud_has_issuer (l : auds) : bool := existsb aud_is_issuer l.
+(* a boolean where an audience list is expected: [issuer] / [a foreign value] (older files) *)
+Definition auds_of_bool (b : bool) : auds := if b then [AudIssuer] else [AudForeign].
+Coercion auds_of_bool : bool >-> auds.
+
 (* ---- the request object ---- *)
 Inductive enc_layer := EncNone | EncOk | EncBad.   (* no JWE layer / decrypts / JWE that does not decrypt *)
 Inductive sig :=
@@ -54,7 +84,7 @@ Record req_object := mkRO {
   ro_alg : sigalg;             (* "alg" header *)
   ro_kid : id;                 (* "kid" header, 0 = absent *)
   ro_iss : id;                 (* "iss": the client it names, 0 = absent / not a client *)
-  ro_aud_ok : bool;            (* "aud" contains the issuer of this server *)
+  ro_aud : auds;               (* "aud": its members, [] = absent *)
   ro_exp : option Z;           (* exp - now *)
   ro_nbf : option Z;           (* nbf - now *)
   ro_iat : option Z;           (* iat - now *)
@@ -64,6 +94,9 @@ Record req_object := mkRO {
   ro_nested_uri : bool;        (* a "request_uri" claim (an https URL) *)
   ro_params : params           (* the authorization parameters it carries *)
 }.
+
+(* "aud" contains the issuer of this server *)
+Definition ro_aud_ok (o : req_object) : bool := aud_has_issuer (ro_aud o).
 
 (* the `request` value parsed from the claims *)
 Record jar_req := mkJarReq { jr_client : id; jr_nested_req : bool; jr_nested_uri : bool; jr_params : params }.
